@@ -33,12 +33,22 @@ func genGrp(r *Rng, tier string) *Enc {
 	vnames := []string{"v", "w", "u"}[:r.Range(0, 3)]
 	for ci, vn := range vnames {
 		d := make([]any, n)
+		if r.Chance(12) {
+			// a column of magnitudes near the int64 limit: every partial sum is a multiple of 2^20 below 2^67,
+			// hence exact in float64, while an int64 accumulator would wrap
+			for i := range d {
+				d[i] = Pick(r, []any{int64(4e18), int64(4e18), int64(-4e18), int(4e18), int64(1) << 62, uint64(1) << 62, int64(0), nil})
+			}
+			df.Columns[vn] = &dataframe.Column[any]{Name: vn, Data: d}
+			continue
+		}
 		for i := range d {
 			switch r.Intn(10) {
 			case 0:
 				d[i] = nil
 			case 1:
 				d[i] = Pick(r, []any{"7", "t", true})
+
 			default:
 				// cycle deterministically through every numeric width
 				w := allWidths[(i+ci+r.Intn(2))%len(allWidths)]
